@@ -132,6 +132,19 @@ def r3_accusation_guards(chk: Check) -> None:
         chk.decide(bool(dele) and all(g.dominated_by_edge(r, dele[0][0], "true") for r in rn), "C18.R3", uaf, "only a related DELETE frees a resource", "requests of other methods are treated as deletions", uaf.loc())
         pre = [(tid, e) for tid, e in guard_tests(g, lambda e: any(isinstance(c, ast.Call) and last_attr(c) == "_is_prefix_operation" for c in ast.walk(e)))]
         chk.decide(bool(pre) and all(g.dominated_by_edge(r, pre[0][0], "true") for r in rn) and not strip_not(pre[0][1])[1], "C18.R3", uaf, "only for the same resource (prefix test)", "unrelated resources are accused", uaf.loc())
+        # no precondition the property does not state: a successful DELETE anywhere in the tree counts - also the ROOT
+        # of the scenario, which has no parent.  Facts about "the related case has a parent" at the accusation are an
+        # extra precondition (a leftover of reading the parent's response).
+        parent_vars = {name_of(b, "v") for n_, b in pfind("$v = $c.find_parent($_)", uaf.node)} | {name_of(b, "v") for n_, b in pfind("$v = $c.find_parent(case_id=$_)", uaf.node)}
+        facts = known_conditions(g, rn)
+        extra = sorted(k for k, v in facts.items() if (k in parent_vars and v) or any(k == f"{pv} is None" and not v for pv in parent_vars))
+        construct = "a successful DELETE counts wherever it sits in the tree (no `has a parent` precondition)"
+        if extra:
+            chk.violation("C18.R3", uaf, construct,
+                          f"the accusation is only reached when `{extra[0]}` holds for the related DELETE, although nothing of that parent is used: a DELETE that is the ROOT of the scenario (no parent) is skipped, so `DELETE /users/1 -> 204` followed by the linked `GET /users/1 -> 200` is not reported as use-after-free",
+                          uaf.loc())
+        else:
+            chk.ok("C18.R3", uaf, construct, "", uaf.loc())
     skip = next((s for s in uaf.node.body if isinstance(s, ast.If)), None)
     chk.expect(skip is not None and "BaseOpenAPISchema" in unparse(skip.test, 300) and "is_unexpected_http_status_case" in unparse(skip.test, 300), "C18.R3", uaf, "skip only for foreign schemas / unspecified-method cases", "skip condition not recognised", uaf.loc())
     chk.decide(any(d.endswith("check") for d in uaf.decorator_names()), "C18.R3", uaf, "use_after_free is a registered check", "the check is no longer registered", uaf.loc())
